@@ -14,6 +14,9 @@ pub use inner::dbxxx::{DbXxxIntoIter, DbXxxIter, DbXxxIterMut, DbXxxKeys, DbXxxV
 use inner::semtype::*;
 use inner::FileDbInner;
 
+#[cfg(abyssiniandb_verif)]
+pub use inner::verif;
+
 /// File Database.
 #[derive(Debug, Clone)]
 pub struct FileDb(Rc<RefCell<FileDbInner>>);
